@@ -28,7 +28,7 @@ LEVEL_TEXT = ('Every clause is a Coq theorem about the model, including (round 4
               '(5) the edge sum exactly as FunctionSpace.integrate_function_on_edge forms it (F at the interpolated points X_q = sum_a N_a(s_q) X_a, unit normal and jac * w_q of compute_edge_vectors) differs from the flux by at most '
               'C eps_q + (1 + eps_q) * eta * (Lip(F1) |t_y| + Lip(F2) |t_x|) with eta = delta * Lam + eps_s * emax (explicit Lipschitz constant of a polynomial on a box from its normal form; X_q within eta of A + s_q t from the certified '
               '1-D identities k = 0, 1; delta = placement error of the edge nodes, Lam = certified Lebesgue sum), in Lipschitz form C eps_q + L (1 + eps_q) eps_s for exact nodes, and summed over the boundary edges reported by create_edges against the sum of the element integrals of div F. '
-              'Tested only: binary64 rounding inside FunctionSpace/Mesh (L1 on the geometric kernels, L2 head-room), the node placement error delta of elevated meshes (owned by C13; measured per edge in L2), the interpolated nodal field u_q handed to func on edges.')
+              'Tested only: binary64 rounding inside FunctionSpace/Mesh (L1 on the geometric kernels, L2 head-room), the node placement error delta of elevated meshes (owned by C13; measured per edge in L2), edge integrands combining the interpolated nodal field u_q (itself proved exact: C03_edge_interpolation) with F(X_q).')
 TECHNIQUE = ('Coq proof: vm_compute-checked exactness of the quadrature tables regenerated from the source text; proved certificate '
              'checkers run on the exact rational value of every runtime table (complete configuration set); lifting theorems over R '
              'for every affine element; PrimFloat correspondence for the geometric kernels')
@@ -39,6 +39,7 @@ COQ_FILES = ['base/Num.v', 'model/M_C03.v', 'proofs/L_C03sn.v', 'proofs/L_C03cer
 TRUSTED = ['Coq 8.16.1 kernel + vm_compute (no native_compute)',
            'tools/vlib/tab_c03.py: extraction of the tabulated rules (decimal source text -> exact rationals) and of the index structure of the geometric kernels from the Python AST, fail closed',
            'harness: exact binary64 -> (mantissa, exponent) conversion of every runtime table, sharding of certificates, de-duplication of byte-identical tables',
+           'hand model edge_flux_sum of integrate_function_on_edge (model/M_C03.v), tied by the PrimFloat correspondence stream l1_edgeflux; its R-instance is the impl_edge_flux of the theorems (C03_impl_edge_flux_is_model)',
            'hand model of the geometric kernels (model/M_C03.v Section Geo), tied by PrimFloat correspondence on random triangles (tolerance: 8 ulp of the '
            'cross-product terms for volumes; 64 u cond(J) |J^-1| |dN| for the LU solve vs the closed form; 16 ulp for edge vectors) and by the extracted index structure (gen/Tab_FsGeom.v)',
            'theorems are over exact reals with the certified table tolerances as explicit hypotheses; binary64 rounding inside FunctionSpace is covered only by L2 (tolerance 2e-10 relative to the theorem\'s own error scale)',
@@ -52,7 +53,9 @@ RULE = ('round-4 L2 addition per cartesian mesh: for up to 4 sampled boundary ed
         'calling the implementation\'s constructors; one configuration = one distinct item. L2: seeded random Delaunay / graded / rotated / anisotropic / '
         'structured triangulations with random cyclic vertex rotation per element, orders and bubble cycling through all combinations, random rule degrees, '
         'cartesian and axisymmetric; a mesh counts as non-trivial when it has >= 2 elements; distinct = distinct (kind, seed, order, bubble, degree, mode). '
-        'L1: random triangles over six decades of size, aspect ratio up to 100, both orientations; distinct = distinct triangles.')
+        'L1: random triangles over six decades of size, aspect ratio up to 100, both orientations; distinct = distinct triangles. '
+        'L1 edgeflux (round 4): one-element meshes of orders 1..5 (cycled), random side, random 1-D degree 0..9, random monomial fields of degree <= 4; the model edge_flux_sum is fed the '
+        'implementation\'s edge-node coordinates, 1-D shape table and weights (oracle tables) and compared with integrate_function_on_edge within 32 ulp of the magnitude of the expression as written; distinct = distinct (triangle, side, degree, exponents).')
 
 ORDERS = (1, 2, 3, 4, 5)
 DEG2D = tuple(range(1, 11))
@@ -826,6 +829,86 @@ def l1_compare(ctx, cases, impl, res):
     ctx.count('model_vs_impl_mismatches', mism)
 
 
+# ----------------------------------------------------------------------------- L1 (round 4): the edge sum, model (binary64) vs implementation
+
+def l1e_cases(ctx):
+    r = ctx.rng('l1_edgeflux')
+    cases = []
+    for k in range(ctx.n(40, 400)):
+        sc = 10.0 ** r.uniform(-2, 2)
+        c0 = (r.uniform(-3, 3) * sc, r.uniform(-3, 3) * sc)
+        ang = r.uniform(0, 2 * math.pi)
+        v = []
+        for t in range(3):
+            a = ang + 2 * math.pi * t / 3 + r.uniform(-0.5, 0.5)
+            v.append([c0[0] + sc * math.cos(a) * 10.0 ** r.uniform(0, 1), c0[1] + sc * math.sin(a)])
+        a_ = r.randrange(0, 5); b_ = r.randrange(0, 5 - a_)
+        c_ = r.randrange(0, 5); e_ = r.randrange(0, 5 - c_)
+        cases.append(dict(p=1 + k % 5, v=v, side=r.randrange(3), d1=r.randrange(0, 10), exps=[a_, b_, c_, e_]))
+    return cases
+
+
+def l1e_impl(cases):
+    import numpy as onp
+    import jax.numpy as jnp
+    from types import SimpleNamespace
+    from optimism import FunctionSpace, Interpolants, Mesh, QuadratureRule
+    out = []
+    for c in cases:
+        mesh = Mesh.construct_mesh_from_basic_data(jnp.asarray(onp.array(c['v'], dtype=onp.float64)), jnp.asarray([[0, 1, 2]]), {'block': jnp.arange(1)})
+        if c['p'] > 1:
+            mesh = Mesh.create_higher_order_mesh_from_simplex_mesh(mesh, c['p'])
+        qr = QuadratureRule.create_quadrature_rule_1D(c['d1'])
+        a, b, cc, e = c['exps']
+        func = (lambda u, x, n, a=a, b=b, cc=cc, e=e: x[0] ** a * x[1] ** b * n[0] + x[0] ** cc * x[1] ** e * n[1])
+        got = float(FunctionSpace.integrate_function_on_edge(SimpleNamespace(mesh=mesh), func, mesh.coords, qr, (0, c['side'])))
+        X = onp.asarray(mesh.coords, dtype=onp.float64)
+        en = onp.asarray(mesh.parentElement.faceNodes)[c['side']]
+        Xn = X[onp.asarray(mesh.conns)[0, en]]
+        N = onp.asarray(Interpolants.compute_shapes(mesh.parentElement1d, qr.xigauss).values, dtype=onp.float64)       # [nn, nq]
+        vn1 = [int(i) for i in mesh.parentElement1d.vertexNodes]
+        out.append(dict(flux=got, Xn=[[float(x), float(y)] for x, y in Xn], Ns=[[float(x) for x in row] for row in N.T],
+                        ws=[float(x) for x in onp.asarray(qr.wgauss)], A=[float(x) for x in Xn[vn1[0]]], B=[float(x) for x in Xn[vn1[1]]]))
+    return out
+
+
+def l1e_exprs(cases, impl):
+    ex = []
+    for c, o in zip(cases, impl):
+        a, b, cc, e = c['exps']
+        ex.append('fenc (@edge_flux_sum float NumF (@mono_fn float NumF %d %d) (@mono_fn float NumF %d %d) %s %s [%s] [%s] %s)' % (
+            a, b, cc, e, _fp(o['A']), _fp(o['B']), '; '.join(_fp(x) for x in o['Xn']), '; '.join(_fl(row) for row in o['Ns']), _fl(o['ws'])))
+    return ex
+
+
+def l1e_compare(ctx, cases, impl, res):
+    U = 2.0 ** -52
+    mlip = lambda M, i, j: (i * M ** (i - 1) * M ** j if i else 0.0) + (j * M ** i * M ** (j - 1) if j else 0.0)
+    mism = 0
+    worst = 0.0
+    for c, o, rz in zip(cases, impl, res):
+        got = C.dec_floats(rz)[0]
+        a, b, cc, e = c['exps']
+        M = max(max(abs(x), abs(y)) for x, y in o['Xn'])
+        Lam = max(sum(abs(x) for x in row) for row in o['Ns'])
+        tx, ty = o['B'][0] - o['A'][0], o['B'][1] - o['A'][1]
+        jac = math.hypot(tx, ty)
+        nx, ny = abs(ty) / jac, abs(tx) / jac
+        # rounding of the expression as written: every product/sum a few ulp of its magnitude; the points X_q carry an absolute error
+        # of a few ulp of Lam * M, amplified by the Lipschitz constant of the monomial on the box [-M, M]^2
+        tol = 32 * U * jac * sum(abs(w) for w in o['ws']) * ((M ** (a + b) + mlip(M, a, b) * Lam * M) * nx + (M ** (cc + e) + mlip(M, cc, e) * Lam * M) * ny) + 1e-300
+        worst = max(worst, abs(got - o['flux']) / tol)
+        ctx.count('l1_edgeflux_order_%d' % c['p'])
+        if not abs(got - o['flux']) <= tol:
+            mism += 1
+            if mism <= 5:
+                ctx.fail('correspondence', 'model edge_flux_sum = %r but FunctionSpace.integrate_function_on_edge gives %r (tolerance %.3g) for F=(x^%d y^%d, x^%d y^%d), order %d, side %d, 1-D degree %d' % (
+                    got, o['flux'], tol, a, b, cc, e, c['p'], c['side'], c['d1']), case=dict(ckind='l1e', case=c, model=got, impl=o['flux']))
+    ctx.count('model_vs_impl_comparisons', len(cases))
+    ctx.count('model_vs_impl_mismatches', mism)
+    ctx.cov['l1_edgeflux_worst_error_over_tolerance'] = worst
+
+
 # ----------------------------------------------------------------------------- exact re-evaluation of a failed certificate (search)
 
 def table_identities_exact(T, limit=5):
@@ -1006,6 +1089,13 @@ def correspondence(ctx, model_ok):
     l1_compare(ctx, cases, impl, res)
     ctx.count('evaluations', len(res))
     ctx.count('distinct_nontrivial', len(cases))
+    # ---- L1 (round 4): the edge sum of integrate_function_on_edge, Num-generic model executed at binary64 against the implementation
+    ecases = l1e_cases(ctx)
+    eimpl = l1e_impl(ecases)
+    eres = C.coq_eval(IMPORTS, l1e_exprs(ecases, eimpl), 'C03e', shard=300)
+    l1e_compare(ctx, ecases, eimpl, eres)
+    ctx.count('evaluations', len(eres))
+    ctx.count('distinct_nontrivial', len(ecases))
 
 
 def search(ctx, reasons):
